@@ -60,7 +60,7 @@ MIX = [("natmix", 3), ("natudp", 2), ("hs", 1), ("net:udp", 1), ("net:mixed", 1)
 
 def gen(seed, tier):
     out = []
-    for s in hs_gen.generate(seed, tier, n=4000 if tier == "quick" else 30000, mix=MIX):
+    for s in hs_gen.generate(seed, tier, n=3000 if tier == "quick" else 30000, mix=MIX):
         if has_nat(s): out.append(twin_of(s))        # the twin first: it is evaluated before the scenario itself
         out.append(s)
     return out
